@@ -121,6 +121,41 @@ type c09World struct {
 	creator   map[string]int                  // table uri -> instance that wrote it
 	walSig    map[c09Handle]map[string]string // handle -> WAL path -> content signature when the handle was taken
 	hFiles    map[c09Handle][2][]string       // handle -> (tables, WALs) its document entry listed when it was taken
+	tblSig    map[string]string               // table path -> content signature when its write was observed
+	// a compaction of one instance held while it creates an output file (D63 witness)
+	gateArmed  bool
+	gateInst   int
+	gateHit    chan struct{}
+	gateRel    chan struct{}
+	compacting map[int]bool
+	lateDB     *dkv.DB // the released instance whose compaction is still held
+	lateInst   int
+	lateTables []string // what that compaction wrote once it was let go
+}
+
+// c09GateFS parks the creation of a table file by an armed instance's compaction
+type c09GateFS struct {
+	storage.FileSystem
+	w   *c09World
+	idx int
+}
+
+func (g *c09GateFS) New(path string) storage.File {
+	if strings.HasSuffix(path, ".sst") {
+		g.w.mu.Lock()
+		park := g.w.gateArmed && g.w.gateInst == g.idx && g.w.compacting[g.idx]
+		var hit, rel chan struct{}
+		if park {
+			g.w.gateArmed = false
+			hit, rel = g.w.gateHit, g.w.gateRel
+		}
+		g.w.mu.Unlock()
+		if park {
+			close(hit)
+			<-rel
+		}
+	}
+	return g.FileSystem.New(path)
 }
 
 func (w *c09World) dirOf(idx int) int {
@@ -322,6 +357,8 @@ func (w *c09World) instOf(db any) *c09Inst {
 	return nil
 }
 
+func (w *c09World) isLate(db any) bool { return w.lateDB != nil && any(w.lateDB) == db }
+
 func (w *c09World) hook(label string, payload []any) {
 	switch label {
 	case "dkv.needstable.between":
@@ -356,6 +393,12 @@ func (w *c09World) hook(label string, payload []any) {
 			w.cleanups = append(w.cleanups, fmt.Sprintf("%s:%s:c:del", idx, c))
 		}
 		w.mu.Unlock()
+	case "dkv.compact.begin", "dkv.compact.idle":
+		w.mu.Lock()
+		if x := w.instOf(payload[0]); x != nil {
+			w.compacting[x.idx] = label == "dkv.compact.begin"
+		}
+		w.mu.Unlock()
 	case "dkv.flush.done":
 		w.mu.Lock()
 		defer w.mu.Unlock()
@@ -367,12 +410,24 @@ func (w *c09World) hook(label string, payload []any) {
 			if !x.known[ti.URI] {
 				x.known[ti.URI] = true
 				w.creator[ti.URI] = x.idx
+				w.tblSig[w.canon(ti.URI)] = w.sig(w.canon(ti.URI))
 				x.events = append(x.events, "f+"+w.tblString(ti.URI, ti.StartKey, ti.EndKey))
 			}
 		}
 	case "dkv.compact.commit":
 		w.mu.Lock()
 		defer w.mu.Unlock()
+		if w.isLate(payload[0]) && len(payload) >= 2 {
+			// the held compaction of the released instance was let go: these are the files it wrote late
+			if cs, ok := payload[1].(*sst.ChangeSet); ok {
+				_, added, _ := cs.VerifChangeSet()
+				for _, t := range added {
+					d := t.Document()
+					w.lateTables = append(w.lateTables, w.tblString(d.URI, d.StartKey, d.EndKey))
+				}
+			}
+			return
+		}
 		x := w.instOf(payload[0])
 		if x == nil || len(payload) < 2 {
 			return
@@ -390,6 +445,7 @@ func (w *c09World) hook(label string, payload []any) {
 			d := t.Document()
 			x.known[d.URI] = true
 			w.creator[d.URI] = x.idx
+			w.tblSig[w.canon(d.URI)] = w.sig(w.canon(d.URI))
 			add = append(add, w.tblString(d.URI, d.StartKey, d.EndKey))
 		}
 		x.events = append(x.events, "c-"+c09Join(rm)+"+"+c09Join(add))
@@ -588,7 +644,7 @@ func runC09(c lib.Case) []string {
 	c09Seq++
 	dir := fmt.Sprintf("c09-%d", c09Seq)
 	w := &c09World{nextID: 1, docOwner: map[int]int{}, creator: map[string]int{}, walSig: map[c09Handle]map[string]string{},
-		hFiles: map[c09Handle][2][]string{}}
+		hFiles: map[c09Handle][2][]string{}, tblSig: map[string]string{}, compacting: map[int]bool{}}
 	if c09Field(hf, "fs") == "local" {
 		base := os.TempDir()
 		if st, err := os.Stat("/dev/shm"); err == nil && st.IsDir() {
@@ -606,6 +662,10 @@ func runC09(c lib.Case) []string {
 	verifhook.Set(w.hook)
 	defer func() {
 		runtime.KeepAlive(w.grave)
+		if w.gateRel != nil {
+			close(w.gateRel)
+			w.gateRel = nil
+		}
 		for _, x := range w.insts {
 			for _, sn := range x.snaps {
 				c09DrainScan(sn) // best effort: frees the coroutines of scans still held at the end of the case
@@ -755,7 +815,7 @@ func runC09(c lib.Case) []string {
 					return ""
 				}
 				own := &c09Ownership{w: w, idx: idx, inner: operator.VerifNewOperatorPartitionWithNeighbors(partitioning.KeyGroupRange{Start: lo, End: hi}, ranges, ops)}
-				db := dkv.New(dkv.DBOptions{FileSystem: w.store.instFS(fmt.Sprintf("i%d", x.dir)), MemTableSize: uint64(mem), TargetFileSize: 96,
+				db := dkv.New(dkv.DBOptions{FileSystem: &c09GateFS{FileSystem: w.store.instFS(fmt.Sprintf("i%d", x.dir)), w: w, idx: idx}, MemTableSize: uint64(mem), TargetFileSize: 96,
 					L0TableNumCompactionTrigger: l0, DataOwnership: own})
 				comp := db.VerifCompactor()
 				comp.SmallestLevelSize = 1
@@ -828,6 +888,106 @@ func runC09(c lib.Case) []string {
 				evs = strings.Join(ev, ";")
 			}
 			out = append(out, fmt.Sprintf("ok %d tables=%s wals=%s ev=%s", idx, c09Join(tabs), c09Join(wals), evs))
+		case "gate": // gate <i> : the next table file a compaction of <i> creates is held until `ungate`
+			x := inst(f[1])
+			if x == nil || !x.alive || x.db == nil {
+				out = append(out, "not-alive")
+				continue
+			}
+			w.mu.Lock()
+			w.gateArmed, w.gateInst = true, x.idx
+			w.gateHit, w.gateRel = make(chan struct{}), make(chan struct{})
+			w.mu.Unlock()
+			out = append(out, "ok")
+		case "ungate": // the held compaction goes on: it saves its output files now
+			if w.gateRel == nil {
+				out = append(out, "no-gate")
+				continue
+			}
+			close(w.gateRel)
+			w.gateRel = nil
+			wait := func(db *dkv.DB) {
+				if db == nil {
+					return
+				}
+				done := make(chan struct{})
+				go func() {
+					defer close(done)
+					defer func() { recover() }()
+					db.WaitOnTasks()
+				}()
+				select {
+				case <-done:
+				case <-time.After(10 * time.Second):
+				}
+			}
+			wait(w.lateDB)
+			for _, x := range w.insts {
+				if x.alive {
+					wait(x.db)
+				}
+			}
+			w.mu.Lock()
+			late := w.lateTables
+			w.lateTables = nil
+			li := w.lateInst
+			w.mu.Unlock()
+			out = append(out, fmt.Sprintf("late %d %s", li, c09Join(late)))
+		case "writehold", "writeflush":
+			// writehold <i> <n> <seed> <klo>-<khi>: write until the armed compaction is held while creating its output
+			// writeflush ...: write and wait for the flushes only (a compaction may be queued behind a held one)
+			x := inst(f[1])
+			if len(f) < 5 {
+				out = append(out, "bad-op")
+				continue
+			}
+			if x == nil || !x.alive || x.db == nil {
+				out = append(out, "not-alive")
+				continue
+			}
+			n, _ := strconv.Atoi(f[2])
+			seed, _ := strconv.ParseUint(f[3], 10, 64)
+			klo, khi := c09ParseRange(f[4])
+			r := lib.NewRng(seed)
+			res := c09Guard(func() string {
+				for k := 0; k < n; k++ {
+					kg := r.Range(klo, khi)
+					key := []byte{byte(kg >> 8), byte(kg), 0x00, byte(r.Intn(6)), byte(r.Intn(4))}
+					x.db.Put(key, r.Bytes(r.Range(8, 30)))
+				}
+				if f[0] == "writehold" {
+					select {
+					case <-w.gateHit:
+					case <-time.After(5 * time.Second):
+						return "not-parked"
+					}
+				}
+				// all sealed memtables flushed
+				for k := 0; k < 500 && x.db.VerifMemtableCount() > 1; k++ {
+					time.Sleep(10 * time.Millisecond)
+				}
+				if x.db.VerifMemtableCount() > 1 {
+					return "flush-timeout"
+				}
+				return ""
+			})
+			w.mu.Lock()
+			ev := x.events
+			x.events = nil
+			w.mu.Unlock()
+			if res != "" {
+				out = append(out, res)
+				continue
+			}
+			head := "ok "
+			if f[0] == "writehold" {
+				head = "parked "
+			}
+			if len(ev) == 0 {
+				out = append(out, head+"-")
+			} else {
+				out = append(out, head+strings.Join(ev, ";"))
+			}
 		case "write": // write <i> <n> <seed> <klo>-<khi>
 			x := inst(f[1])
 			if len(f) < 5 {
@@ -1120,6 +1280,10 @@ func runC09(c lib.Case) []string {
 				}
 				x.snaps = nil
 				x.op = nil
+				if w.gateRel != nil && w.gateInst == x.idx {
+					// its compaction is still held: the dropped instance has a background write in flight (D63)
+					w.lateDB, w.lateInst = x.db, x.idx
+				}
 			}
 			x.db = nil
 			w.mu.Unlock()
@@ -1274,7 +1438,7 @@ func runC09(c lib.Case) []string {
 					uris, wals = w.hFiles[h][0], w.hFiles[h][1]
 				}
 				for _, u := range uris {
-					if !have[u] {
+					if want, known := w.tblSig[u]; !have[u] || (known && w.sig(u) != want) {
 						miss[u] = true
 					}
 				}
@@ -1293,8 +1457,9 @@ func runC09(c lib.Case) []string {
 				}
 				for _, l := range x.db.VerifLevels().VerifLayout() {
 					for _, ti := range l {
-						if u := w.canon(ti.URI); !have[u] {
-							miss[u] = true
+						u := w.canon(ti.URI)
+						if want, known := w.tblSig[u]; !have[u] || (known && w.sig(u) != want) {
+							miss[u] = true // gone, or overwritten by another table since it was written
 						}
 					}
 				}
@@ -1796,6 +1961,12 @@ func c09FixedAll() []lib.Case {
 		{Header: "M C09 mem=120 l0=1", Tags: []string{"regress-D46"}, Ops: []string{
 			"open 0-8 gen=0 nbrs=- from=none", "write 0 12 1 0-7", "ckpt 0 1", "write 0 12 2 0-7", "asksplit 0 new", "ckpt 0 2",
 			"write 0 12 3 0-7", "write 0 12 4 0-7", "askresume", "asksplit 0 dead", "jobdrop 1", "retain 0 2", "askresume", "gc", "missing"}},
+		// D63 witness (open finding): instance 0 is dropped inside the living process while one of its compactions
+		// is held creating its output file; instance 1 reopens the directory from checkpoint 1 and flushes tables
+		// under the same numbers; when the held compaction is let go it overwrites a live table of instance 1
+		{Header: "M C09 mem=120 l0=2", Tags: []string{"witness-D63"}, Ops: []string{
+			"open 0-8 gen=0 nbrs=- from=none", "write 0 12 1 0-7", "ckpt 0 1", "gate 0", "writehold 0 9 2 0-7", "release 0",
+			"open 0-8 gen=1 nbrs=- from=0:1 dir=0", "writeflush 1 12 3 0-7", "ungate", "missing"}},
 		// a scan iterator held across compactions, a retention update and collections pins its tables
 		{Header: "M C09 mem=120 l0=1", Tags: []string{"held-scan"}, Ops: []string{
 			"open 0-8 gen=0 nbrs=- from=none", "write 0 12 1 0-7", "snap 0 scan", "write 0 12 2 0-7", "write 0 12 3 0-7", "gc", "files",
@@ -1832,7 +2003,8 @@ func propC09() *lib.Prop {
 			return false
 		},
 		MObs: func(op string) bool {
-			return strings.HasPrefix(op, "write ") || strings.HasPrefix(op, "open ") || strings.HasPrefix(op, "ckpt ") || strings.HasPrefix(op, "asksplit ")
+			return strings.HasPrefix(op, "write ") || strings.HasPrefix(op, "open ") || strings.HasPrefix(op, "ckpt ") || strings.HasPrefix(op, "asksplit ") ||
+				strings.HasPrefix(op, "writehold ") || strings.HasPrefix(op, "writeflush ") || op == "ungate"
 		},
 	}
 }
